@@ -71,6 +71,35 @@ def alter(fr, name, seed):
     return a
 
 
+WEATHER_COLS = ["temperature", "ghi"]
+
+
+def add_duplicates(rep, seed, n=12, drop_hours=0):
+    """meter and weather feeds concatenated without a join: n time stamps occur twice and the two records differ in which
+    cells are NaN — first record {usage only | weather only | all NaN}, later record the complement
+    {weather only | usage only | complete}.  drop_hours: that many stamps are removed altogether (a gap in the index)."""
+    r = np.random.default_rng(seed)
+    wcols = [c for c in WEATHER_COLS if c in rep.columns]
+    pos = sorted(int(i) for i in r.choice(len(rep), size=min(n + drop_hours, len(rep)), replace=False))
+    gone, pos = pos[:drop_hours], pos[drop_hours:]
+    first, later = [], []
+    for k, i in enumerate(pos):
+        a, b = rep.iloc[[i]].copy(), rep.iloc[[i]].copy()
+        if k % 3 == 0:
+            a[wcols] = np.nan
+            b["observed"] = np.nan
+        elif k % 3 == 1:
+            a["observed"] = np.nan
+            b[wcols] = np.nan
+        else:
+            a[wcols] = np.nan
+            a["observed"] = np.nan
+        first.append(a)
+        later.append(b)
+    body = rep.drop(rep.index[pos + gone])
+    return pd.concat([body] + first + later).sort_index(kind="stable")
+
+
 def bits(x):
     return np.asarray(x, dtype=np.float64).view(np.int64)
 
@@ -449,7 +478,7 @@ def gen_hourly_case(rng, kit, k):
     elif k % 5 == 4:
         mode = "truncated"
     return {"stream": "hourly", "kit_seed": kit.seed, "solar": kit.solar, "tz": kit.tz, "start": start, "ndays": ndays,
-            "mode": mode, "tgap": k % 3 == 1, "seed": rng.randrange(2**31)}
+            "mode": mode, "tgap": k % 3 == 1, "dups": k % 4 in (0, 2), "seed": rng.randrange(2**31)}
 
 
 def labels_used(model, df_in):
@@ -481,9 +510,13 @@ def run_hourly_case(run, kit, case, pz, state_policy, terms, meta):
     rep = fl.hourly_frame(rng, tz=case["tz"], start=case["start"], ndays=case["ndays"], ghi=case["solar"])
     if case.get("tgap"):    # hours without a temperature reading (the data class interpolates them from the temperature column)
         rep.loc[np.random.default_rng(case["seed"] + 1).random(len(rep)) < 0.05, "temperature"] = np.nan
+    if case.get("dups"):    # repeated time stamps whose records differ in which cells are NaN
+        rep = add_duplicates(rep, case["seed"] + 2)
     variants = []   # (name, path, builder of the data object)
+    raw = {}
     for name in ALTS:
         a = alter(rep, name, case["seed"] % 1000 + ALTS.index(name))
+        raw[name] = a
         variants.append((name, "class", (lambda a=a: fl.hourly_reporting(a))))
     # usage written into the data object: gaps survive (the data class would interpolate them)
     r = np.random.default_rng(case["seed"])
@@ -541,6 +574,12 @@ def run_hourly_case(run, kit, case, pz, state_policy, terms, meta):
     names = list(obs)
     first = names[0]
     base_days = skel[first]
+    # ---- Coq: which record of a repeated stamp the data class kept (stream ds)
+    for n in names:
+        if n in raw and "interpolated_temperature" in obs[n]["df_in"].columns:
+            DS_TERMS.append(coq_ds(DEDUP["z"], raw[n], obs[n]["df_in"]))
+            DS_META.append(dict(case, variant=n))
+    run.dist("hourly_duplicated_stamps", int(rep.index.duplicated().sum()))
     same_wc = all([(d["utc0"], d["hours"], d["month"], d["dow"]) for d in skel[n]] ==
                   [(d["utc0"], d["hours"], d["month"], d["dow"]) for d in base_days] for n in names) and \
         all(bits(obs[n]["df_in"]["temperature"].to_numpy(dtype=float)).tolist() ==
@@ -600,6 +639,52 @@ def run_hourly_case(run, kit, case, pz, state_policy, terms, meta):
 
 
 LABEL_TERMS, LABEL_META = [], []
+DS_TERMS, DS_META = [], []
+DEDUP = {"z": 0}
+
+
+def coq_ds(pz, a, df_in):
+    """records as the data class receives them (order kept; 0 usage of electricity data counts as missing) and, per stamp of
+    data.df, whether the temperature had to be gap-filled"""
+    mins = minutes_of(a.index)
+    wcols = [c for c in WEATHER_COLS if c in a.columns]
+    has_w = a[wcols].notna().any(axis=1).to_numpy()
+    has_t = a["temperature"].notna().to_numpy()
+    has_o = (a["observed"].notna() & (a["observed"] != 0)).to_numpy() if "observed" in a.columns else np.zeros(len(a), dtype=bool)
+    recs = coq_list(["(%s, %s, %s, %s)" % (zlit(t), coq_bool(te), coq_bool(w), coq_bool(o))
+                     for t, te, w, o in zip(mins, has_t, has_w, has_o)])
+    flags = df_in["interpolated_temperature"].to_numpy().astype(bool)
+    exp = coq_list(["(%s, %s)" % (zlit(t), coq_bool(f)) for t, f in zip(minutes_of(df_in.index), flags)])
+    return "(%s, %s, %s)" % (zlit(pz), recs, exp)
+
+
+def ds_stream(run):
+    terms, meta = list(DS_TERMS), list(DS_META)
+    del DS_TERMS[:], DS_META[:]
+    if not terms:
+        return
+    bad = run.coq_cases("ds", IMPORTS, "", terms, "check_ds", shard=max(4, len(terms) // 12 + 1),
+                        case_type="(Z * list dsrec * list (Z * bool))%type")
+    if bad is None:
+        run.proof_ok = False
+        return
+    for i in bad:
+        run.corr_failures.append({"stream": "ds", "case": meta[i]})
+
+
+def detect_dedup_policy():
+    """which record of a repeated stamp does HourlyReportingData keep? (first record empty, second with a temperature)"""
+    idx = pd.date_range("2022-06-06 00:00", periods=48, freq="h", tz="US/Pacific")
+    df = pd.DataFrame({"observed": 1.0, "temperature": 60.0}, index=idx)
+    e = df.iloc[[5]].copy()
+    e[["observed", "temperature"]] = np.nan
+    df = pd.concat([df.iloc[:5], e, df.iloc[5:]])
+    try:
+        out = fl.hourly_reporting(df).df
+    except Exception as ex:  # noqa
+        return None, "raised %s" % type(ex).__name__
+    flag = bool(out["interpolated_temperature"].iloc[5])
+    return (0 if flag else 1), flag
 
 
 def labels_stream(run):
@@ -637,6 +722,7 @@ def hourly_stream(run, kits, cases_by_kit, pz, state_policy):
     for i in bad[3:]:
         run.corr_failures.append({"stream": "hourly", "case": meta[i][0]})
     labels_stream(run)
+    ds_stream(run)
 
 
 def table_after_stream(run, kit, state_policy, n):
@@ -727,6 +813,14 @@ def caltrack_stream(run, seed, nsets):
         rep = fl.hourly_frame(rng, tz=tz, start=start, ndays=ndays)
         if k % 3 == 2:   # gaps in the temperature: those hours have no prediction on either side
             rep.loc[np.random.default_rng(k).random(len(rep)) < 0.1, "temperature"] = np.nan
+        irregular = None
+        if k % 4 == 1:   # repeated time stamps (records differing in which cells are NaN)
+            rep = add_duplicates(rep, seed + k, n=8)
+            irregular = "duplicates"
+        elif k % 4 == 3:   # an hour missing from the index
+            rep = add_duplicates(rep, seed + k, n=0, drop_hours=2)
+            irregular = "gap"
+        case["irregular_index"] = irregular
         obs = {}
         unc = {}
         for name in ALTS:
@@ -740,7 +834,15 @@ def caltrack_stream(run, seed, nsets):
         if unc:
             run.dist("caltrack_uncertainty_column", "present with usage=%s, present without=%s" % (
                 unc.get("orig"), unc.get("dropped")))
-        pairwise(run, "caltrack", obs, {"stream": "fitted", "path": "class"}, case)
+        def classify(a, b):
+            blank = {"allnan", "dropped"}
+            msgs = [obs[x].get("msg") or "" for x in (a, b) if not obs[x]["ok"]]
+            if irregular and msgs and all("Meter Data must be atleast hourly" in m for m in msgs) and \
+                    all((x in blank) == (not obs[x]["ok"]) for x in (a, b)):
+                return "frequency-check-on-nonnull-usage-index"
+            return "unexplained"
+        run.dist("caltrack_index", irregular or "regular")
+        pairwise(run, "caltrack", obs, {"stream": "fitted", "path": "class"}, case, classify=classify)
         if k == 0 and obs["orig"]["ok"]:
             run.sample({"stream": "caltrack", "tz": tz, "start": start, "rows": len(obs["orig"]["ts"]),
                         "predicted": int(np.isfinite(obs["orig"]["pred"]).sum())})
@@ -763,7 +865,8 @@ def main():
         "bit-wise on the timestamps predicted in both. daily/billing: synthetic documents (1-6 sub-models, dyadic coefficients) x "
         "frames of 1-250 local days, 5 zones, NaN/inf temperatures, injected or through the data class, each variant also "
         "compared row by row with Model/Rows.v in Coq; one really fitted daily and billing model. hourly: really fitted "
-        "non-solar and solar models reloaded from JSON per run; reporting sets of 4-35 days, half of them placed on a clock "
+        "non-solar and solar models reloaded from JSON per run; half of the sets carry repeated time stamps whose records differ in "
+        "which cells are NaN (which record survives is compared with Model/HourlyFlow.v select, stream ds); reporting sets of 4-35 days, half of them placed on a clock "
         "change; model object fresh / reused after another set / stored table truncated; outcome class and equality pattern "
         "of every variant compared with Model/HourlyFlow.v in Coq. caltrack: one fitted model, sets of 3-45 days. "
         "distinct = (case hash, variant); non-trivial = at least one finite temperature")
@@ -793,6 +896,15 @@ def main():
         run.corr_failures.append({"stream": "policy-probe", "impl": str(got), "model": "no counting policy of Model/Dst.v explains the probe"})
         pz = 0
 
+    dz, dgot = detect_dedup_policy()
+    run.cov["duplicate_selection_detected"] = {0: "KeepFirst (index only)", 1: "DropEmptyKeepFirst (reads the usage cell)"}.get(
+        dz, "unrecognised: %s" % (dgot,))
+    run.log("selection among repeated time stamps:", run.cov["duplicate_selection_detected"])
+    if dz is None:
+        run.corr_failures.append({"stream": "policy-probe", "impl": str(dgot), "model": "no dedup_policy of Model/HourlyFlow.v explains the probe"})
+        dz = 0
+    DEDUP["z"] = dz
+
     if run.replay:
         rep = json.load(open(run.replay))
         todo = [rep["case"]]
@@ -818,6 +930,8 @@ def main():
                                    "_blank_regular_partial give the guards")
     else:
         run.cov["theorem_path"] = "rows counted: C05_hourly_ni_count_rows proves the full statement for the behaviour observed"
+    run.cov["theorem_path"] += ("; repeated stamps: first record kept, C05_hourly_public_ni / C05_hourly_data_stage_ni apply" if dz == 0 else
+                                "; repeated stamps: selection reads usage, C05_hourly_public_refuted_drop_empty applies")
     run.cov["theorem_path"] += ("; table stored back: C05_hourly_reuse_refuted applies" if state_policy == "StoreBack"
                                 else "; table kept local: C05_hourly_reuse_ni_repaired applies")
 
